@@ -22,6 +22,8 @@ import (
 	"google.golang.org/grpc"
 	"google.golang.org/grpc/codes"
 	"google.golang.org/grpc/metadata"
+	"google.golang.org/grpc/resolver"
+	"google.golang.org/grpc/resolver/manual"
 	"google.golang.org/grpc/stats"
 	"google.golang.org/grpc/status"
 	"google.golang.org/grpc/verif/vlib"
@@ -31,9 +33,10 @@ import (
 const maxInt31 = uint32(1<<31 - 1)
 
 type astep struct {
-	K string        `json:"k"`           // start | goaway | complete | headers | sleep | wait
+	K string        `json:"k"`           // start | goaway | complete | headers | sleep | wait | swap
 	N int           `json:"n,omitempty"` // count
 	V string        `json:"v,omitempty"` // goaway variant
+	T string        `json:"t,omitempty"` // goaway target: "" = newest live connection, "old" = oldest live connection
 	D time.Duration `json:"d,omitempty"`
 }
 
@@ -49,8 +52,48 @@ type ascenario struct {
 	// transport right after a new stream was registered and its HEADERS queued)
 	// yields the processor that many times: a collaborator we own that widens the
 	// window between creating a stream and the RPC's next operation on it.
-	Yield int     `json:"yield,omitempty"`
+	Yield int `json:"yield,omitempty"`
+	// Swap: the channel gets a manual resolver; a "swap" step replaces the only
+	// address, so pick_first shuts the old subchannel down and its transport is
+	// GracefulClose()d by the client while streams may still run on it.
+	Swap  bool    `json:"swap,omitempty"`
 	Steps []astep `json:"steps"`
+}
+
+// genClientSwap: streams are in flight on a connection that the CLIENT drains
+// (address replaced by the resolver -> subchannel shutdown -> GracefulClose);
+// only then does its scripted server send a single GOAWAY(N), N typically below
+// some in-flight stream, and never answers the streams above N.
+func genClientSwap(rng *rand.Rand) ascenario {
+	sc := ascenario{Seed: rng.Int63(), NRPC: 6 + rng.Intn(16), MCS: -1, Swap: true}
+	sc.Steps = append(sc.Steps, astep{K: "start", N: 2 + rng.Intn(5)}, astep{K: "wait"})
+	if rng.Intn(2) == 0 {
+		sc.Steps = append(sc.Steps, astep{K: vlib.Pick(rng, "complete", "headers"), N: 1}, astep{K: "wait"})
+	}
+	sc.Steps = append(sc.Steps, astep{K: "swap"})
+	if rng.Intn(4) != 0 {
+		sc.Steps = append(sc.Steps, astep{K: "wait"}) // otherwise the GOAWAY races with the client-side drain
+	}
+	if rng.Intn(2) == 0 {
+		sc.Steps = append(sc.Steps, astep{K: "start", N: 1 + rng.Intn(3)})
+	}
+	sc.Steps = append(sc.Steps, astep{K: "goaway", T: "old", V: vlib.Pick(rng, "zero", "touched", "touched", "mid", "mid", "max")}, astep{K: "wait"})
+	n := rng.Intn(10)
+	for k := 0; k < n; k++ {
+		switch r := rng.Intn(100); {
+		case r < 25:
+			sc.Steps = append(sc.Steps, astep{K: "start", N: 1 + rng.Intn(3)})
+		case r < 40:
+			sc.Steps = append(sc.Steps, astep{K: "goaway", T: vlib.Pick(rng, "old", "old", ""), V: vlib.Pick(rng, "zero", "touched", "mid", "max", "lower", "same", "maxint")})
+		case r < 50:
+			sc.Steps = append(sc.Steps, astep{K: "swap"})
+		case r < 75:
+			sc.Steps = append(sc.Steps, astep{K: "complete", N: 1 + rng.Intn(3)})
+		default:
+			sc.Steps = append(sc.Steps, astep{K: "wait"})
+		}
+	}
+	return sc
 }
 
 // genClientTrap: RPCs are pushed off connection 0 by GOAWAY(0) and land, as
@@ -151,6 +194,8 @@ type attempt struct {
 	completed bool   // the script sent the response message and OK trailers
 	payload   string
 	clientRST bool
+	rid       int
+	openSeen  bool // already reported as left open above a GOAWAY id
 }
 
 type aconn struct {
@@ -167,6 +212,7 @@ type aconn struct {
 	poisonKey  string
 	poisonWhy  string
 	hadInvalid bool // some invalid GOAWAY was written on this connection (its RPCs are judged leniently)
+	swappedOut bool // existed when the resolver replaced the address: the client GracefulClose()s it
 	trap       bool // answers its first HEADERS with GOAWAY(0) from the reader goroutine
 	trapFired  bool // that GOAWAY has been seen in the log (main goroutine's view)
 	sealedAt   int  // log length at the first quiescent point after the first GOAWAY, -1 = not yet
@@ -190,7 +236,16 @@ func runClient(sc ascenario) *result {
 	res := newResult()
 	v := res.v
 	ledger := &attemptLedger{yield: sc.Yield, begun: map[int]int{}, trans: map[int]int{}}
-	fx, err := wire.NewClientFixture(grpc.WithIdleTimeout(0), grpc.WithStatsHandler(ledger))
+	dopts := []grpc.DialOption{grpc.WithIdleTimeout(0), grpc.WithStatsHandler(ledger)}
+	var mr *manual.Resolver
+	swaps := 0
+	if sc.Swap {
+		// overrides the passthrough scheme of the fixture's target for this channel only
+		mr = manual.NewBuilderWithScheme("passthrough")
+		mr.InitialState(resolver.State{Addresses: []resolver.Address{{Addr: "srv-0"}}})
+		dopts = append(dopts, grpc.WithResolvers(mr))
+	}
+	fx, err := wire.NewClientFixture(dopts...)
 	if err != nil {
 		v("harness", "fixture: %v", err)
 		return res
@@ -300,7 +355,7 @@ func runClient(sc ascenario) *result {
 					if s, ok := e.Field("x-rid"); ok {
 						rid, _ = strconv.Atoi(s)
 					}
-					a := &attempt{conn: c.idx, id: e.Stream}
+					a := &attempt{conn: c.idx, id: e.Stream, rid: rid}
 					a.prevHdr, _ = e.Field("grpc-previous-rpc-attempts")
 					c.streams[e.Stream] = a
 					c.order = append(c.order, e.Stream)
@@ -395,7 +450,36 @@ func runClient(sc ascenario) *result {
 				// not been sent (that is how a client that did not tear it down behaves).
 				c.poisoned = false
 			}
-			if c.ended && len(c.goaways) == 0 && !c.endJudged {
+			// Streams above a valid GOAWAY id must have ended at the client by the
+			// quiescent point after the GOAWAY: their RPC has returned or the channel
+			// has begun a further attempt for it (every GOAWAY the script knows of was
+			// written before this quiescent point, hence handled by the client).
+			if c.validN >= 0 && !c.hadInvalid && !c.ended {
+				for _, id := range c.order {
+					a := c.streams[id]
+					if int64(id) <= c.validN || a.clientRST || a.openSeen || a.rid < 0 || a.rid >= len(rpcs) {
+						continue
+					}
+					mu.Lock()
+					fin := rpcs[a.rid].finished
+					mu.Unlock()
+					ledger.mu.Lock()
+					b := ledger.begun[a.rid]
+					ledger.mu.Unlock()
+					// b == 1: the channel began a single attempt for this RPC, so this stream is
+					// it (no reliance on the order in which the readers of different
+					// connections logged their frames).
+					if !fin && b == 1 {
+						a.openSeen = true
+						v("stream-above-goaway-id-left-open", "conn %d stream %d (rpc %d) is above the GOAWAY id %v the client has quiesced with, but it is the only attempt the channel ever began for its RPC, and the RPC has not returned: the stream was not failed as unprocessed", c.idx, id, a.rid, c.goaways)
+					}
+				}
+			}
+			// A connection drained by the client itself (address swapped away) is closed
+			// by the client without any GOAWAY from the server; after a swap only the
+			// newest connection (dialled for the current address) is judged.
+			newest := c.idx == len(snapshot())-1
+			if c.ended && len(c.goaways) == 0 && !c.endJudged && !c.swappedOut && (swaps == 0 || newest) {
 				c.endJudged = true
 				v("conn-closed-without-goaway", "conn %d was closed by the client although the scripted server never sent GOAWAY", c.idx)
 			}
@@ -410,11 +494,22 @@ func runClient(sc ascenario) *result {
 		}
 		return x
 	}
-	sendGoAway := func(variant string, rng *rand.Rand) {
+	sendGoAway := func(variant string, rng *rand.Rand, target string) {
 		ingest()
 		c := current()
+		if target == "old" {
+			for _, o := range snapshot() {
+				if !o.ended && !o.poisoned {
+					c = o
+					break
+				}
+			}
+		}
 		if c == nil || c.trap && !c.trapFired {
 			return
+		}
+		if c.swappedOut {
+			res.counters["goaways_on_client_drained_conn"]++
 		}
 		ingest() // use what the reader has logged so far (racing streams may be missing: that is the point)
 		lo := c.maxTouched
@@ -532,7 +627,16 @@ func runClient(sc ascenario) *result {
 				next++
 			}
 		case "goaway":
-			sendGoAway(st.V, rng)
+			sendGoAway(st.V, rng, st.T)
+		case "swap":
+			if mr != nil {
+				for _, c := range snapshot() {
+					c.swappedOut = true
+				}
+				swaps++
+				res.counters["address_swaps"]++
+				mr.UpdateState(resolver.State{Addresses: []resolver.Address{{Addr: fmt.Sprintf("srv-%d", swaps)}}})
+			}
 		case "complete", "headers":
 			ingest()
 			var cand []*aconn
@@ -625,6 +729,9 @@ func runClient(sc ascenario) *result {
 				acc = append(acc, a)
 			} else {
 				res.counters["unprocessed_attempts"]++
+				if c.swappedOut {
+					res.counters["unprocessed_attempts_on_client_drained_conn"]++
+				}
 			}
 		}
 		desc := func() string {
@@ -747,6 +854,9 @@ func runClient(sc ascenario) *result {
 		}
 		sort.Strings(vs)
 		res.sig = fmt.Sprintf("client/mcs=%v/conns=%d/%s/retried=%v/unavail=%v/race=%v", sc.MCS >= 0, min(len(cs), 4), strings.Join(vs, "+"), retried > 0, unavailable > 0, res.counters["rpcs_racing_with_goaway"] > 0)
+		if sc.Swap {
+			res.sig += fmt.Sprintf("/swaps=%d/goaway-on-drained=%v/unprocessed-on-drained=%v", min(swaps, 3), res.counters["goaways_on_client_drained_conn"] > 0, res.counters["unprocessed_attempts_on_client_drained_conn"] > 0)
+		}
 	}
 	return res
 }
